@@ -12,12 +12,18 @@ def gen_http(rng, fault=None):
     verb = rng.choice(HTTP_VERBS)
     target = b'/' + bytes(rng.choice([0x61, 0x2f, 0x3f, 0x25, 0xff, 0xfe, 0x0d, 0x00, 0x7f, 0x41]) for _ in range(rng.below(12)))
     target = target.replace(b' ', b'_').replace(b'\n', b'_')
+    if rng.chance(1, 12):
+        # long request-targets (around typical buffer sizes: 255/256, 1023/1024, 2047..2049, 4095/4096, 8 KiB)
+        n = rng.choice([255, 256, 1023, 1024, 2047, 2048, 2049, 3000, 4095, 4096, 8191, 8192, 8193, 1 + rng.below(9000)])
+        target = b'/' + bytes(0x61 + rng.below(26) for _ in range(n - 1))
     ver = b'HTTP/' + rng.choice([b'1.1', b'1.0', b'2.0', b'0.9', b'11.22', b'1.', b'.', b'1.1'])
     eol = rng.choice([b'\r\n', b'\n', b'\r\n', b'\r\r\n'])
     hdrs = []
     for _ in range(rng.below(4)):
         name = rng.choice([b'Host', b'User-Agent', b'Content-Length', b'Content-Type', b'X-' + bytes([0x41 + rng.below(26)]), b'a'])
         val = rng.choice([b' example.com', b'', b' a:b:c', b' ' + rng.bytes(rng.below(6)).replace(b'\n', b'.'), b'0'])
+        if rng.chance(1, 30):
+            val = b' ' + bytes(0x61 + rng.below(26) for _ in range(rng.choice([255, 256, 1024, 4096, 8192])))
         hdrs.append(name + b':' + val)
     if fault == 'verb':
         verb = rng.choice([b'BREW', b'GETS', b'XET', b'G', b'', b'PUTT', b'get', b'FOO'])
@@ -52,6 +58,9 @@ def gen_ssh(rng, fault=None):
     ver = rng.choice([b'2.0', b'1.99', b'2.0', b'2.0'])
     soft = bytes(rng.choice([0x4f, 0x70, 0x65, 0x6e, 0x5f, 0x38, 0x2e, 0x0d, 0x2d, 0x00, 0xff]) for _ in range(rng.below(14)))
     soft = soft.replace(b' ', b'_')
+    if rng.chance(1, 10):
+        # long identification strings (around 255 / 256 bytes, the RFC 4253 limit, and far beyond)
+        soft = bytes(0x61 + rng.below(26) for _ in range(rng.choice([240, 244, 245, 246, 247, 250, 300, 1000, 200 + rng.below(100)])))
     comment = b''
     if rng.chance(1, 2):
         comment = b' ' + bytes(rng.choice([0x61, 0x20, 0x0d, 0x41, 0x0a][:4]) for _ in range(rng.below(8)))
@@ -170,7 +179,7 @@ def gen_dns(rng, fault=None):
     for i in range(qn):
         t, c = 1, 1
         if fault == 'notina' and (i == 0 or rng.chance(1, 2)):
-            t, c = rng.choice([(16, 1), (1, 3), (28, 1), (255, 255), (0, 0), (1, 0), (257, 1)])
+            t, c = rng.choice([(16, 1), (1, 3), (28, 1), (255, 255), (0, 0), (1, 0), (257, 1), (1, 0x8001), (1, 0x8001), (0x8001, 1), (1, 255)])
         nm = dns_name(rng)
         if fault == 'labels' and len(nm) > 2:
             # a label length byte that lies by a little (overshoots / undershoots the next label or the root)
